@@ -34,11 +34,11 @@ def _order(dt):
 
 def decode(bs, dt):
     """memory bytes -> value term(s) under numpy dtype dt.  ('u', bv) | ('f', fp) | ('c', re, im)"""
-    if dt.kind == "u" and dt.itemsize == 2:
+    if dt.kind in "ui" and dt.itemsize in (1, 2, 4, 8) and dt.names is None:
         b = list(bs)
         if _order(dt) == "<":
             b = b[::-1]
-        return ("u", z3.Concat(*b))
+        return (dt.kind, z3.Concat(*b) if len(b) > 1 else b[0])
     if dt.kind == "f" and dt.itemsize == 4:
         return ("f", _fp_from_bytes(bs, _order(dt)))
     if dt.kind == "c" and dt.itemsize == 8:
